@@ -1,7 +1,7 @@
 (* C01  Inbound packets are reassembled exactly under every transport chunking.
    This file contains only the property theorems (closed by `exact`), the tie of the packet
    limit to the constants translated from src/packet.rs, and non-vacuity examples. *)
-From MsqlVerif Require Import Model.Packet Spec.Frame Proofs.PacketRead Gen.Consts.
+From MsqlVerif Require Import Model.Packet Model.PacketBuf Spec.Frame Proofs.PacketRead Proofs.PacketBufRefine Gen.Consts.
 Open Scope N_scope.
 
 (* (a) a complete framed command at the head of the buffer is delivered whole -- payload
@@ -46,6 +46,30 @@ Theorem C01_truncated_is_error : forall s q p x y,
   inbound s = x -> x <> [] -> y <> [] -> x ++ y = frame (s_lim s) q p ->
   exists s', next s = (RErr EUnexpectedEof, s').
 Proof. exact next_truncated. Qed.
+
+(* (f) the same for the EXACT buffer bookkeeping of PacketConn::next (bytes / start / remaining,
+   drain, resize to max(4096, 2*end), read into the spare capacity, truncate), where a chunk larger
+   than the spare capacity is delivered in parts: Model/PacketBuf.v *)
+Theorem C01_exact_bookkeeping : forall x s q p rest fuel,
+  0 < s_lim s -> s_lim s < 2 ^ 24 -> q < 256 -> x_wf x ->
+  all_data (s_reads s) ->
+  inbound_x x s = frame (s_lim s) q p ++ rest ->
+  (script_size (s_reads s) < fuel)%nat ->
+  exists x' s',
+    next_x fuel x s = (ROk (Some (last_seq (s_lim s) q p, p)), x', s') /\
+    x_wf x' /\ inbound_x x' s' = rest /\ all_data (s_reads s') /\ reads_only s s'.
+Proof. exact next_x_frame. Qed.
+Theorem C01_exact_truncated : forall x s q p a b fuel,
+  0 < s_lim s -> s_lim s < 2 ^ 24 -> q < 256 -> x_wf x ->
+  all_data (s_reads s) ->
+  inbound_x x s = a -> a <> [] -> b <> [] -> a ++ b = frame (s_lim s) q p ->
+  (script_size (s_reads s) < fuel)%nat ->
+  exists x' s', next_x fuel x s = (RErr EUnexpectedEof, x', s').
+Proof. exact next_x_truncated. Qed.
+Theorem C01_exact_clean_end : forall x s fuel,
+  x_wf x -> all_data (s_reads s) -> inbound_x x s = [] -> (script_size (s_reads s) < fuel)%nat ->
+  exists x' s', next_x fuel x s = (ROk None, x', s') /\ x_tail x' = [] /\ s_reads s' = [].
+Proof. exact next_x_eof. Qed.
 
 (* tie: the constants the code uses (translated from src/packet.rs on every run) are an instance *)
 Theorem C01_constants : U24_MAX = 2 ^ 24 - 1 /\ 0 < U24_MAX < 2 ^ 24 /\
